@@ -3,10 +3,12 @@
 real stripper's output is checked byte-for-byte against the alignment predicate, (ii) label
 audit of every report of every stage on generated files with multi-byte text, comments of every
 shape before constructs and CRLF line ends."""
+import collections
 import json
 import os
 import re
 import vlib
+from checks import runnerlib as rl
 import gen
 from checks import c05
 
@@ -117,9 +119,65 @@ def run(ctx):
                     elif len(samples) < 4 and l in r["primary"]:
                         samples.append({"id": r["id"], "label": l["label"], "range": [l["start"], l["end"]],
                                         "text_under_label": sources[p][l["start"]:l["end"]].decode("utf-8", "replace")[:100]})
+        # (iii) what the user sees: line:column printed by the real binary and the SARIF regions, against positions
+        # recomputed from the original bytes of the labels collected in-process
+        cli = vlib.build_cli()
+        nbin = 25 if ctx.tier == "quick" else 250
+        extra = [
+            "pragma circom 2.0.0;\n/* é */ template T() {\n  signal input a;\n  signal input b;\n  signal output c;\n  c <--\n     a / b;\n  if (1 ==\n      1) {\n    log(a);\n  }\n}\n",
+            "pragma circom 2.0.0;\r\ntemplate T(n,\r\n   m) {\r\n  signal input a;\r\n  signal output c;\r\n  var x =\r\n    n +\r\n    1;\r\n  c <-- a *\r\n a;\r\n}\r\n",
+        ]
+        jobs = []
+        for k, t in enumerate(extra):
+            q = wd.write("x%d/main.circom" % k, t.encode("utf-8"))
+            jobs.append((q, t, vlib.analyze([{"inputs": [q], "libs": [], "curve": "BN254"}])[0]))
+        for (p, text), rep in list(zip(metas, replies))[:nbin]:
+            jobs.append((p, text, rep))
+        n_bin = 0
+        n_regions = 0
+
+        def runbin(job):
+            p, text, rep = job
+            sar = p + ".sarif"
+            return rl.run_cli(cli, {"inputs": [p], "libs": [], "curve": "BN254"}, level="info", sarif=sar, timeout=60), sar
+        for (p, text, rep), (o, sar) in zip(jobs, rl.pmap(runbin, jobs)):
+            if "crash" in rep or o["rc"] not in (0, 1):
+                continue
+            n_bin += 1
+            src = text.encode("utf-8")
+            want_pos = collections.Counter()
+            want_regions = collections.Counter()
+            for r in vlib.reports_of(rep):
+                if r["primary"]:
+                    l = r["primary"][0]
+                    want_pos[rl.line_col(src, l["start"])] += 1
+                for l in r["primary"] + r["secondary"]:
+                    want_regions[(r["id"],) + rl.line_col(src, l["start"]) + rl.line_col(src, l["end"])] += 1
+            got_pos = collections.Counter((int(a), int(b)) for _, a, b in o["positions"])
+            got_regions = collections.Counter()
+            try:
+                sj = json.load(open(sar))
+                for res in sj["runs"][0]["results"]:
+                    for loc in res.get("locations", []) + res.get("relatedLocations", []):
+                        rg = loc["physicalLocation"]["region"]
+                        got_regions[(res["ruleId"], rg["startLine"], rg["startColumn"], rg["endLine"], rg["endColumn"])] += 1
+            except Exception as e:
+                got_regions = None if want_regions else collections.Counter()
+            n_regions += sum(want_regions.values())
+            if got_pos != want_pos:
+                bad_labels += 1
+                ctx.violation("displayed-position", {"stage": "L1 line:column printed by the binary vs positions recomputed from the original bytes", "file_text": text,
+                                                     "only_printed": sorted((got_pos - want_pos).elements())[:5], "only_expected": sorted((want_pos - got_pos).elements())[:5], "broken": None})
+            elif got_regions != want_regions:
+                bad_labels += 1
+                ctx.violation("sarif-region", {"stage": "L1 SARIF regions vs positions recomputed from the original bytes", "file_text": text,
+                                               "only_sarif": sorted((got_regions - want_regions).elements())[:5] if got_regions is not None else "no readable SARIF file",
+                                               "only_expected": sorted((want_regions - (got_regions or collections.Counter())).elements())[:5], "broken": None})
+        cov_bin = (n_bin, n_regions)
     if not ok:
         ctx.violation("theorem " + ";".join(failing)[:200], {"broken": "theorem", "failing": failing}, no_input=True)
     cov = ctx.coverage
+    cov["binary_runs_with_sarif"], cov["sarif_regions_compared"] = cov_bin
     cov["evaluations"] = len(texts) + nprog
     cov["distinct_nontrivial"] = len(set(texts)) + n_labels
     cov["rule"] = ("stripper: the C05 input set (all short strings + random fragments) checked against the byte-alignment predicate; "
